@@ -536,6 +536,7 @@ pub fn run(ctx: &mut Ctx) {
                 ctx.fail(fam, case, "C16,C17,C18,C19,C20", "unexpected-panic", p);
             }
             Ok((out, added, _special, b)) => {
+                ctx.hash_line(fam, case, b);
                 ctx.impl_line(&format!("sem {case} out={}", norm_probes(out).join(",")));
                 ctx.impl_line(&format!("sem {case} added={added}"));
                 if let Err(e) = wasmparser::Validator::new_with_features(wasmparser::WasmFeatures::all()).validate_all(b) {
